@@ -16,6 +16,7 @@ use crate::vf::gen::*;
 use crate::vf::gen_app::*;
 use crate::vf::normalise::*;
 use crate::vf::session::*;
+use crate::vf::shadow::{shadow_opt, Shadow, ShadowGuard};
 use crate::vf::sut::*;
 use crate::vf::traffic::*;
 use crate::vf::util::*;
@@ -56,6 +57,10 @@ pub struct Case {
     /// per-flow byte streams (application requests, partial requests, garbage)
     pub streams: Vec<Hex>,
     pub hist: Vec<HStep>,
+    /// sibling traffic (vf/shadow.rs) accompanying every frame of the *history* run — more
+    /// traffic of other flows, carrying the same payloads; the isolated re-runs have none
+    #[serde(default)]
+    pub shadow: Option<Shadow>,
 }
 
 fn stream() -> impl Strategy<Value = Hex> {
@@ -67,6 +72,13 @@ fn stream() -> impl Strategy<Value = Hex> {
 }
 
 pub fn case_strategy() -> impl Strategy<Value = Case> {
+    (case_strategy0(), shadow_opt()).prop_map(|(mut c, sh)| {
+        c.shadow = sh;
+        c
+    })
+}
+
+fn case_strategy0() -> impl Strategy<Value = Case> {
     (
         scenario_quiet(Fam::Any),
         1024u16..30000,
@@ -87,7 +99,7 @@ pub fn case_strategy() -> impl Strategy<Value = Case> {
             2..=24,
         ),
     )
-        .prop_map(|(scn, sport, dport, streams, hist)| Case { scn, sport, dport, streams, hist })
+        .prop_map(|(scn, sport, dport, streams, hist)| Case { scn, sport, dport, streams, hist, shadow: None })
 }
 
 #[derive(Clone)]
@@ -243,7 +255,19 @@ fn norm(o: &Out) -> Out {
 
 pub fn check(c: &Case, st: &mut Stats) -> Check {
     st.eval();
-    let played = play(c, st)?;
+    let played = {
+        let _g = ShadowGuard::set(&c.shadow);
+        let p = play(c, st);
+        if c.shadow.is_some() {
+            st.class("history-accompanied-by-shadow-traffic");
+            st.add_extra("shadow_frames", crate::vf::shadow::frames_sent());
+            if crate::vf::shadow::tainted() {
+                st.exclude("shadow-tuple-collision");
+                return Ok(());
+            }
+        }
+        p?
+    };
     if played.is_empty() {
         return Ok(());
     }
